@@ -11,7 +11,7 @@ import re
 import random
 from typing import Any, Dict, List, Optional, Tuple, Union
 
-from rig import env, driver, shim, audit, resolver, monitors, h11util, conv, gen_http as G
+from rig import env, driver, shim, pki, tlsorigin, audit, resolver, monitors, h11util, conv, gen_http as G
 
 env.quiet_logging()
 
@@ -36,11 +36,30 @@ LEVEL_NOTE = ('Trusted: sys.addaudithook for connects, the strict request splitt
 TECHNIQUE = 'runtime monitoring: audit-hook connects + origin/client transcripts vs a reference router over the generated route table'
 RULE = ('case = (route table, request, rewrite flag); non-trivial = the path matches at least one route; distinct = table '
         'shape x match class x method x rewrite x url shape')
-ASSUMPTIONS = ['route regexes are valid', 'upstream URLs use the http scheme']
+ASSUMPTIONS = ['route regexes are valid', 'https upstream URLs present a certificate that verifies against --ca-file']
 SHARDS = {'quick': 8, 'thorough': 16}
 BUDGET_S = {'quick': 45, 'thorough': 800}
 
 _table: List[Dict[str, Any]] = []       # the running case's route table (read by the plugin at call time)
+_P: Dict[str, Any] = {}
+
+
+def begin(tier: str) -> None:
+    # a private CA for https upstream URLs (--ca-file); leaves are made per upstream host on demand
+    import os
+    d = env.workdir('c12', str(os.getpid()))
+    ca = pki.make_ca(d, 'upstream-ca', rsa=False)
+    # one leaf for every https upstream of this process: any *.test name, and a private block of loopback addresses
+    ips = ['127.99.%d.%d' % (os.getpid() % 250, k) for k in range(1, 33)]
+    _P.update({'dir': d, 'ca': ca, 'ips': ips, 'leaf': pki.make_leaf(d, 'upstreams', ['*.up.test'] + ips, ca)})
+
+
+def end() -> None:
+    if _P.get('dir'):
+        import shutil
+        shutil.rmtree(_P['dir'], ignore_errors=True)
+
+
 
 
 class GenRoutes(ReverseProxyBasePlugin):
@@ -68,8 +87,8 @@ PATHS = ['/a', '/a/', '/a/x', '/a/x/y', '/b', '/b/deep/1', '/c/12', '/d/7', '/c/
 
 
 def flags_for(rewrite: bool) -> Any:
-    return make_flags(['--enable-reverse-proxy'] + (['--rewrite-host-header'] if rewrite else []), plugins=[GenRoutes],
-                      cache_key='c12:%s' % rewrite)
+    return make_flags(['--enable-reverse-proxy', '--ca-file', _P['ca'][1]] + (['--rewrite-host-header'] if rewrite else []), plugins=[GenRoutes],
+                      cache_key='c12:%s:%s' % (rewrite, _P['dir']))
 
 
 def reference_route(table: List[Dict[str, Any]], path: bytes) -> Optional[Dict[str, Any]]:
@@ -88,7 +107,9 @@ def run_case(case: Dict[str, Any]) -> Dict[str, Any]:
     viol: List[Dict[str, Any]] = []
     obs: Dict[str, int] = {}
     sets: Dict[str, set] = {'choices': set(), 'url_shapes': set(), 'match_classes': set()}
-    origins: Dict[Tuple[str, int], conv.AutoOrigin] = {}
+    origins: Dict[Tuple[str, int], Any] = {}
+    tls_origins: List[Any] = []
+    used_ips: set = set()
     sent_by_origin: Dict[str, bytes] = {}
     names: Dict[str, str] = {}
     inconclusive = None
@@ -102,13 +123,15 @@ def run_case(case: Dict[str, Any]) -> Dict[str, Any]:
             else:
                 for ui, u in enumerate(spec['urls']):
                     ip = '127.%d.%d.%d' % (rng.randint(1, 250), rng.randint(0, 250), rng.randint(2, 250))
-                    try:
-                        o = Origin(ip, 80 if not u['port'] else 0)
-                    except OSError:
-                        inconclusive = 'cannot-bind-origin'
-                        raise
-                    rig.origins.append(o)
+                    tls = bool(u.get('tls'))
+                    if tls:
+                        ip = rng.choice([x for x in _P['ips'] if x not in used_ips])
+                        used_ips.add(ip)
                     oname = 'R%dU%d' % (ri, ui)
+                    host = ip
+                    if u['by_name']:
+                        host = 'h-%d-%d-%d.up.test' % (case['i'], ri, ui)
+                        names[host] = ip
 
                     def responder(req: Dict[str, Any], name: str) -> List[bytes]:
                         big = int(req['hd'].get(b'x-want-bytes', b'0'))
@@ -117,17 +140,28 @@ def run_case(case: Dict[str, Any]) -> Dict[str, Any]:
                                                    extra=rng.randbytes(big) if big else b'')
                         sent_by_origin[name] = sent_by_origin.get(name, b'') + b''.join(pcs)
                         return pcs
-                    origins[(ip, o.port)] = conv.AutoOrigin(o, oname, responder)
-                    host = ip
-                    if u['by_name']:
-                        host = 'up-%d-%d-%d.test' % (case['i'], ri, ui)
-                        names[host] = ip
+                    try:
+                        if tls:
+                            # an https upstream URL: a TLS origin (thread) presenting a certificate for the URL's host, issued by --ca-file
+                            o: Any = tlsorigin.TlsOrigin(ip, 443 if not u['port'] else 0, _P['leaf'], oname, responder,
+                                                         behaviour=u.get('tls_behaviour', 'whole'), delay=0.05)
+                            tls_origins.append(o)
+                            origins[(ip, o.port)] = o
+                        else:
+                            o = Origin(ip, 80 if not u['port'] else 0)
+                            rig.origins.append(o)
+                            origins[(ip, o.port)] = conv.AutoOrigin(o, oname, responder)
+                    except OSError:
+                        inconclusive = 'cannot-bind-origin'
+                        raise
                     authority = host + (':%d' % o.port if u['port'] else '')
-                    url = 'http://%s%s' % (authority, u['path'])
+                    url = '%s://%s%s' % ('https' if tls else 'http', authority, u['path'])
                     r['urls'].append(url.encode())
                     r['targets'].append({'ip': ip, 'port': o.port, 'authority': authority.encode(),
                                          'path': (u['path'] or '/').encode(), 'name': oname})
-                    sets['url_shapes'].add('%s|%s|%s' % ('name' if u['by_name'] else 'ip', 'port' if u['port'] else 'noport',
+                    if tls:
+                        obs['https_upstream_urls'] = obs.get('https_upstream_urls', 0) + 1
+                    sets['url_shapes'].add('%s|%s|%s|%s' % ('https' if tls else 'http', 'name' if u['by_name'] else 'ip', 'port' if u['port'] else 'noport',
                                                          'nopath' if not u['path'] else ('query' if '?' in u['path'] else 'path')))
             _table.append(r)
         lookups = resolver.reset(names)
@@ -157,8 +191,19 @@ def run_case(case: Dict[str, Any]) -> Dict[str, Any]:
             before_len = len(client.rx)
             reqs_before = {k: len(ao.all_requests()) for k, ao in origins.items()}
             for pc in conv.cut_bytes(rng, raw, q.get('ncuts', 0)):
-                client.send(pc)
-                rig.step()
+                rest = pc
+                spins = 0
+                while rest and spins < 200000:      # a non-blocking send takes what fits; the remainder follows as the proxy reads
+                    n = client.send(rest)
+                    if n < 0:
+                        break
+                    rest = rest[n:]
+                    rig.step()
+                    spins += 1
+                    if slow:
+                        client.pump(4096)
+                    for ao in origins.values():
+                        ao.tick()
 
             def done() -> bool:
                 for ao in origins.values():
@@ -246,6 +291,10 @@ def run_case(case: Dict[str, Any]) -> Dict[str, Any]:
             obs['routed_checked'] = obs.get('routed_checked', 0) + 1
             if len(expect) > 131072:
                 obs['large_relays_checked'] = obs.get('large_relays_checked', 0) + 1
+            if len(body) > 65536:
+                obs['large_uploads_checked'] = obs.get('large_uploads_checked', 0) + 1
+                if origins[addr].__class__.__name__ == 'TlsOrigin':
+                    obs['large_uploads_to_tls_upstream_checked'] = obs.get('large_uploads_to_tls_upstream_checked', 0) + 1
             if slow and len(expect) > 20000:
                 obs['slow_reader_relays_checked'] = obs.get('slow_reader_relays_checked', 0) + 1
             if q.get('last') and qi > 0:
@@ -262,6 +311,8 @@ def run_case(case: Dict[str, Any]) -> Dict[str, Any]:
             raise
     finally:
         audit.stop()
+        for o_ in tls_origins:
+            o_.close()
         rig.close()
         del _table[:]
     obs['rewrite:%s' % rewrite] = 1
@@ -293,7 +344,8 @@ def cases(tier: str, seed: int):
             if kind == 'dyn-literal':
                 spec['body'] = 'literal-%d-' % i + 'L' * rng.choice([0, 5, 300])
             else:
-                spec['urls'] = [{'by_name': rng.random() < 0.4, 'port': rng.random() < 0.7,
+                spec['urls'] = [{'by_name': rng.random() < 0.4, 'port': rng.random() < 0.7, 'tls': rng.random() < 0.25,
+                                 'tls_behaviour': rng.choice(['whole', 'whole', 'split', 'late']),
                                  'path': rng.choice(['', '/', '/base', '/base/x.json', '/get?fixed=1', '/deep/er/path/'])}
                                 for _ in range(1 if kind == 'dyn-url' else rng.randint(1, 3))]
             routes.append(spec)
@@ -316,6 +368,15 @@ def cases(tier: str, seed: int):
             reqs.append({'method': method, 'path': path, 'headers': hs, 'body': body, 'ncuts': rng.choice([0, 0, 2])})
         reader = 'eager'
         shape = i % 25
+        if shape in (4, 5):
+            # request bodies beyond one upstream flush (64 KiB), towards plain and TLS upstreams
+            for q in reqs:
+                if q['method'] in ('POST', 'PUT', 'PATCH'):
+                    q['body'] = 'B' * rng.choice([65535, 65537, 140000, 1 << 20])
+            if shape == 5:
+                for r_ in routes:
+                    for u_ in r_.get('urls', []):
+                        u_['tls'] = True
         if shape in (0, 1):
             # large and slowly drained relays: more upstream data arrives while earlier data is still queued for the client
             reader = 'slow' if shape == 1 else 'eager'
@@ -325,7 +386,7 @@ def cases(tier: str, seed: int):
             # a literal answer followed by a non-keep-alive request for an upstream route (and the other way round)
             routes = [{'kind': 'dyn-literal', 'regex': r'/items/[a-z]+$', 'body': 'literal-%d-' % i + 'L' * rng.choice([0, 300])},
                       {'kind': rng.choice(['static', 'dyn-url']), 'regex': r'/a/',
-                       'urls': [{'by_name': False, 'port': True, 'path': rng.choice(['', '/base', '/get?fixed=1'])}]}]
+                       'urls': [{'by_name': False, 'port': True, 'tls': rng.random() < 0.3, 'path': rng.choice(['', '/base', '/get?fixed=1'])}]}]
             rng.shuffle(routes)
             seq = ['/items/abc', '/a/x'] if shape == 2 else ['/a/x', '/items/abc', '/a/x/y']
             reqs = [{'method': rng.choice(['GET', 'POST']), 'path': p, 'headers': [], 'body': '', 'ncuts': rng.choice([0, 2])} for p in seq]
@@ -339,7 +400,7 @@ def floors(tier: str) -> Dict[str, int]:
     return {'routed_checked': 300, 'unrouted_checked': 100, 'literal_checked': 30, 'match:several': 30, 'rewrite:True': 100,
             'rewrite:False': 100, 'distinct:url_shapes': 8, 'distinct:choices': 4,
             'large_relays_checked': 20, 'slow_reader_relays_checked': 15, 'nonkeepalive_followups_checked': 60,
-            'nonkeepalive_after_literal_checked': 30}
+            'nonkeepalive_after_literal_checked': 30, 'https_upstream_urls': 100, 'large_uploads_checked': 20, 'large_uploads_to_tls_upstream_checked': 8}
 
 
 if __name__ == '__main__':
